@@ -354,6 +354,86 @@ for cell, res in zip(multi_cells, run_parallel(multi_cells, run_multi, workers=5
             chk.violation(f'udp.{l}->{c}', f'multi-destination:{verdict}', f'{l} -> {c}, {kind}, datagram #{pos} after destinations {window}: {verdict} ({detail})', {'listener': l, 'connector': c, 'kind': kind, 'last_destinations': window, 'position': pos})
 samples.append({'multi_destination': {'cells': len(multi_cells), 'de_bruijn_length': len(de_bruijn(4, 3)), 'fresh_pairs': 16}})
 
+# ---- the destination goes away and comes back (a refused datagram leaves an error pending on the connector's socket;
+#      the next datagram from the destination wakes the reader): the client must only ever see what the destination sent
+def run_restart(listener):
+    o = socket.socket(socket.AF_INET, socket.SOCK_DGRAM)
+    o.bind(('127.0.0.1', 0))
+    oport = o.getsockname()[1]
+    pr = {k: free_port() for k in ('rudp', 'http', 'api')}
+    pxr = Proxy({'listeners': [{'name': 'rudp', 'type': 'reverse', 'protocol': 'udp', 'bind': f"127.0.0.1:{pr['rudp']}", 'target': f'127.0.0.1:{oport}'},
+                               {'name': 'http', 'bind': f"127.0.0.1:{pr['http']}"}],
+                 'connectors': [{'name': 'direct'}], 'rules': [{'target': 'direct'}], 'metrics': {'bind': f"127.0.0.1:{pr['api']}", 'ui': None}, 'timeouts': {'udp': 30}}, 'c10r')
+    if not pxr.start([pr['http'], pr['api']]):
+        machinery('restart proxy did not start: ' + pxr.log()[-300:])
+    got = []
+    ctrl = None
+    try:
+        if listener == 'reverse':
+            c = socket.socket(socket.AF_INET, socket.SOCK_DGRAM)
+            c.bind(('127.0.0.1', 0))
+            send = lambda b: c.sendto(b, ('127.0.0.1', pr['rudp']))
+            def recv(t):
+                c.settimeout(t)
+                try:
+                    return c.recvfrom(70000)[0]
+                except OSError:
+                    return None
+        else:
+            ctrl, code, head, rest = http_connect(pr['http'], f'127.0.0.1:{oport}', extra_headers=b'Proxy-Protocol: udp\r\n', timeout=5)
+            if code != 200:
+                machinery(f'http udp connect refused: {head[:60]}')
+            send = lambda b: ctrl.sendall(rpfm_frame(0, '127.0.0.1', oport, b))
+            def recv(t):
+                r = rpfm_read(ctrl, t)
+                return None if r is None else r[2]
+        send(b'one')
+        o.settimeout(3)
+        d, relay = o.recvfrom(2000)
+        o.sendto(b'R' + d, relay)
+        sent_by_origin = [b'R' + d]
+        x = recv(2)
+        if x is not None:
+            got.append(x)
+        o.close()                      # destination goes away
+        time.sleep(0.1)
+        try:
+            send(b'two')               # refused: an error is now pending on the connector's socket
+        except OSError:
+            pass
+        time.sleep(0.3)
+        o2 = socket.socket(socket.AF_INET, socket.SOCK_DGRAM)
+        o2.setsockopt(socket.SOL_SOCKET, socket.SO_REUSEADDR, 1)
+        o2.bind(('127.0.0.1', oport))  # ... and comes back on the same port
+        o2.sendto(b'late-reply', relay)
+        sent_by_origin.append(b'late-reply')
+        for _ in range(3):
+            x = recv(0.7)
+            if x is None:
+                break
+            got.append(x)
+        o2.close()
+        return got, sent_by_origin
+    finally:
+        for x in (ctrl,):
+            if x is not None:
+                x.close()
+        pxr.stop()
+
+for listener in ('reverse', 'http-inline'):
+    try:
+        got, sent = run_restart(listener)
+    except OSError as e:
+        machinery(f'restart scenario {listener}: {e!r}')
+    evals += 1
+    distinct.add(('restart', listener, len(got)))
+    bogus = [g for g in got if g not in sent]
+    if bogus or len(got) != len(set(got)):
+        chk.violation(f'udp.{listener}->direct', 'destination-restart:datagram-nobody-sent', f'{listener} -> direct: the destination sent {sent}, the client received {got}', {'listener': listener, 'received': [g.hex() for g in got]})
+    if not got or got[0] != sent[0]:
+        machinery(f'restart scenario {listener} vacuous: first echo not received ({got})')
+    samples.append({'destination_restart': {'listener': listener, 'client_received': [g.decode('latin1') for g in got]}})
+
 # ---- a storm of new sessions: many clients send their first datagram at almost the same time to the reverse UDP
 #      listener (sessions are created one after the other while datagrams keep arriving). Loss is not judged here;
 #      a client must never be handed the answer to another client's datagram
@@ -552,6 +632,6 @@ origin.stop()
 if evals < 100 or len(distinct) < 10:
     machinery(f'vacuous: evals={evals} distinct={len(distinct)}')
 cov = {'evaluations': evals, 'distinct_nontrivial': len(distinct), 'transitions': evals, 'traces_validated_against_impl': evals,
-       'rule': 'real binaries (two hops): UDP listener {socks5 associate, reverse udp, http CONNECT+Proxy-Protocol: udp inline} x connector {direct, socks5, http inline, quic inline, quic datagrams} x destination {ipv4, ipv6, domain} (quick: rotation) x payload sizes x first/later datagram, lock-step with a tagging echo origin; 3 concurrent sessions x 4 rounds per listener x connector; a storm of new sessions on the reverse listener (8 x 80 clients sending their first datagram 0.4 ms apart; no client may get an answer meant for another client); per-datagram destinations inside one association: all ordered triples over {localhost, 127.0.0.1} x {two origins} as a de Bruijn sequence plus all ordered pairs on fresh associations, for socks5 and CONNECT 0.0.0.0:0 x every connector; closed client port per connector',
+       'rule': 'real binaries (two hops): UDP listener {socks5 associate, reverse udp, http CONNECT+Proxy-Protocol: udp inline} x connector {direct, socks5, http inline, quic inline, quic datagrams} x destination {ipv4, ipv6, domain} (quick: rotation) x payload sizes x first/later datagram, lock-step with a tagging echo origin; 3 concurrent sessions x 4 rounds per listener x connector; a destination that goes away and comes back on its port (the pending receive error must not reach the client as a datagram); a storm of new sessions on the reverse listener (8 x 80 clients sending their first datagram 0.4 ms apart; no client may get an answer meant for another client); per-datagram destinations inside one association: all ordered triples over {localhost, 127.0.0.1} x {two origins} as a de Bruijn sequence plus all ordered pairs on fresh associations, for socks5 and CONNECT 0.0.0.0:0 x every connector; closed client port per connector',
        'cells': len(cells), 'sizes': SIZES, 'deadline_verdicts_rerun': retried[0], 'schedule_control': 'kernel', 'samples': samples}
 sys.exit(chk.finish('exploration', cov, ['loopback, lock-step (send one datagram, await its echo with a 3 s deadline): absent network loss holds', 'TPROXY UDP and the QUIC listener as first hop (needs a QUIC client) are not driven directly: QUIC paths are covered as second hop'], merge=False))
